@@ -54,8 +54,11 @@ SELECTORS = st.one_of(
               st.sampled_from(["whole", "sample", "observation"])),
     st.builds(lambda n, m: {"kind": "head", "n": n, "m": m},
               st.integers(-1, 9), st.integers(-1, 9)),
-    st.builds(lambda w: {"kind": "unknown_id", "with_known": w},
-              st.booleans()),
+    st.builds(lambda w, n, c: {"kind": "unknown_id", "with_known": w,
+                               "near": n, "container": c},
+              st.booleans(),
+              st.sampled_from(["far", "extend", "blank", "chop", "case"]),
+              st.sampled_from(["list", "tuple", "set", "ndarray"])),
 )
 
 
@@ -239,7 +242,17 @@ def check(case, rec):
 
     if sel["kind"] == "unknown_id":
         bad = "no-such-id-é"
+        near = sel.get("near", "far")
+        longest = max(ids, key=len)
+        # near misses of a real ID (an ID array of fixed width must not clip
+        # the request into a known ID, nor match blanks / case loosely)
+        cand = {"extend": longest + "2", "blank": longest + " ",
+                "chop": longest[:-1], "case": longest.swapcase()}.get(near)
+        if cand and cand not in ids:
+            bad = cand
+            rec.cls("unknown-id:" + near)
         arg = ([ids[0], bad] if sel["with_known"] else [bad])
+        arg = container(sel.get("container", "list"), arg)
         try:
             t.filter(arg, axis=axis, invert=invert, inplace=inplace)
         except Exception:
